@@ -53,7 +53,8 @@ ASSUMPTIONS = [
 ]
 REQUIRED = ["trees_measured_from_inside_a_traversal", "trees", "length_checked", "branch_features_checked", "path_features_checked",
             "node_features_checked", "counts_checked", "branch_order_checked", "sholl_intersect_checked",
-            "sholl_get_checked", "sholl_exact_threshold_radii", "lmeasure_tree_checked",
+            "sholl_get_checked", "sholl_exact_threshold_radii", "sholl_fixed_step_checked",
+            "sholl_summaries_checked", "lmeasure_tree_checked",
             "lmeasure_node_checked", "lmeasure_bif_checked", "lmeasure_branch_checked",
             "frontend_tree_checked", "frontend_population_checked", "population_padding_checked",
             "frontend_requeried", "feature_queries_in_random_order",
@@ -246,6 +247,36 @@ def check_tree(ctx, case, tree, spec, ref: Ref, soma_ok: bool):
             if int(g) != ref.sholl(r):
                 raise Mismatch("sholl-count", f"Sholl.get({steps}) at radius {r!r}: {int(g)}, "
                                               f"definition gives {ref.sholl(r)}")
+
+    if n >= 2 and steps is not None and rmax >= 2:
+        # the older spelling the library still accepts: a fixed step between the circles, given
+        # at construction; and the summary shortcuts over the default profile
+        import warnings as _w
+
+        st_ = float(np.round(rmax / float(rng.choice([2.5, 4.2, 9.7])), 3))
+        with _w.catch_warnings():
+            _w.simplefilter("ignore")
+            sh2 = Sholl(tree, step=st_)
+            rs2 = np.arange(st_, int(np.ceil(sh2.rmax)), st_)
+            got = np.asarray(sh2.get())
+            if len(got) != len(rs2):
+                raise Mismatch("sholl-count", f"Sholl(tree, step={st_}).get() has {len(got)} entries "
+                                              f"for the {len(rs2)} radii {st_}, {2 * st_:.4g}, ... "
+                                              f"below ceil(rmax)")
+            for r, g in zip(rs2, got):
+                if ref.sholl_margin(float(r)) < margin:
+                    continue
+                ctx.count("sholl_fixed_step_checked")
+                if int(g) != ref.sholl(float(r)):
+                    raise Mismatch("sholl-count", f"Sholl(tree, step={st_}) at radius {r!r}: "
+                                                  f"{int(g)}, definition gives {ref.sholl(float(r))}")
+            base = np.asarray(sh.get())
+            if not (np.array_equal(np.asarray(sh.get_count()), base)
+                    and np.isclose(sh.avg(), base.mean()) and np.isclose(sh.std(), base.std())
+                    and int(sh.sum()) == int(base.sum())):
+                raise Mismatch("sholl-count", "Sholl.get_count / avg / std / sum disagree with the "
+                                              "profile Sholl.get() returns")
+            ctx.count("sholl_summaries_checked")
 
     # ---- L-Measure
     lm = LMeasure()
